@@ -507,8 +507,10 @@ func (r *Runner) CloseAndDecode() {
 	if r.S.DB == nil || r.Mode != "seq" {
 		return
 	}
-	if err := r.S.Do(Op{Op: "close"}); err != nil {
-		return
+	if !r.closedWin { // (the program may have ended with its own Close)
+		if err := r.S.Do(Op{Op: "close"}); err != nil {
+			return
+		}
 	}
 	r.S.ObserveHeld()
 	r.S.DB = nil
